@@ -86,36 +86,16 @@ Theorem c04_pubkey_matches :
 Proof. exact get_public_key_matches. Qed.
 Print Assumptions c04_pubkey_matches.
 
-(* 6. Accelerated client (fullrt).  When the locally stored record is (still)
-   valid it behaves exactly like the standard client, so 1-4 carry over ... *)
-Theorem c04_fullrt_local_valid_same :
+(* 6. Accelerated client (fullrt): it validates its local record like the
+   standard client (fullrt/dht.go getValues, since dea7c9c), so its stream is the
+   standard client's stream for the same inputs and 1-4 carry over verbatim. *)
+Theorem c04_fullrt_same :
   forall valid sel k self local resps nvals,
-    (forall v, local = Some v -> valid k v = true) ->
     search_fullrt valid sel k self local resps nvals = search_std valid sel k self local resps nvals.
 Proof. exact search_fullrt_eq_std. Qed.
-Print Assumptions c04_fullrt_local_valid_same.
+Print Assumptions c04_fullrt_same.
 
-(* ... but it puts the local record into the search without validating it
-   (fullrt/dht.go getValues; the standard client validates, routing.go:300).
-   With a validator whose verdict depends on the clock, a record that was valid
-   when stored and is not any more is streamed to the caller, and -- since it is
-   never compared for validity again -- it can also shadow a valid answer:
-   GetValue returns the invalid value although a responder supplied a valid one.
-   Witness: now = 1000, local value seq 9 expired at 500, one responder with a
-   valid value seq 5. *)
 Definition ex_stale : val := (9 + 65536 * 500)%N.
-Definition ex_fresh : val := (5 + 65536 * 2000)%N.
-Theorem c04_fullrt_emitted_valid_refuted :
-  exists valid sel k self local resps nvals v,
-    In v (search_fullrt valid sel k self local resps nvals) /\ valid k v = false /\
-    get_value (search_fullrt valid sel k self local resps nvals) = Some v /\
-    exists p w, In (p, RespRec k (Some w)) resps /\ valid k w = true.
-Proof.
-  exists (c_valid 1000%N), c_sel, 1%N, 0%N, (Some ex_stale), [(7%N, RespRec 1%N (Some ex_fresh))], 0%nat, ex_stale.
-  split; [vm_compute; auto|]. split; [vm_compute; reflexivity|]. split; [vm_compute; reflexivity|].
-  exists 7%N, ex_fresh. split; [left; reflexivity|vm_compute; reflexivity].
-Qed.
-Print Assumptions c04_fullrt_emitted_valid_refuted.
 
 (* 7. Dual client, SearchValue: the merge (routing-helpers Parallel) of ANY list of
    values -- in particular any interleaving of the WAN and the LAN stream --
@@ -142,27 +122,20 @@ Qed.
 Print Assumptions c04_dual_merge.
 
 (* 8. Dual client, GetValue: the result is one of the two halves' results (hence
-   valid by 1), but it is the WAN result whenever the WAN search found anything:
-   a strictly better value found by the LAN search is dropped.  "Ranked at least
-   as good as every valid value supplied" therefore fails for dual.GetValue. *)
+   valid by 1), and it is the WAN result whenever the WAN search found anything
+   -- the priority property C15 specifies.  Best-of-both is therefore not claimed
+   for dual.GetValue (a better value found only by the LAN search is not
+   returned); "at least as good as every value supplied" is about each search
+   (3) and about the merged stream of dual.SearchValue (7). *)
 Theorem c04_dual_getvalue_one_of :
   forall wan lan v, dual_get_value wan lan = Some v -> wan = Some v \/ lan = Some v.
 Proof. intros [w|] lan v H; simpl in H; auto. Qed.
 Print Assumptions c04_dual_getvalue_one_of.
 
-Theorem c04_dual_getvalue_best_refuted :
-  exists valid sel k self resps_wan resps_lan w l,
-    get_value (search_std valid sel k self None resps_wan 0) = Some w /\
-    get_value (search_std valid sel k self None resps_lan 0) = Some l /\
-    valid k l = true /\ sel k w l = Some 1 /\
-    dual_get_value (Some w) (Some l) = Some w.
-Proof.
-  exists (c_valid 1000%N), c_sel, 1%N, 0%N,
-    [(1%N, RespRec 1%N (Some (3 + 65536 * 2000)%N))], [(2%N, RespRec 1%N (Some (5 + 65536 * 2000)%N))],
-    (3 + 65536 * 2000)%N, (5 + 65536 * 2000)%N.
-  repeat split; vm_compute; reflexivity.
-Qed.
-Print Assumptions c04_dual_getvalue_best_refuted.
+Theorem c04_dual_getvalue_wan_first :
+  forall w lan, dual_get_value (Some w) lan = Some w.
+Proof. reflexivity. Qed.
+Print Assumptions c04_dual_getvalue_wan_first.
 
 (* Non-vacuity: the sequence-number validator satisfies the two laws of 3 and 7
    at every key and time (on values without the Select-error flag), and a search
